@@ -169,6 +169,8 @@ func (ex *Exec) assume(t *Term) {
 	}
 }
 
+const auditAlways = 96
+
 // auditInfeasible: the rewriting layer declared pc ∧ t infeasible; confirm with cvc5 on a sample.
 func (ex *Exec) auditInfeasible(t *Term) {
 	ex.res.rewrites++
@@ -177,7 +179,9 @@ func (ex *Exec) auditInfeasible(t *Term) {
 		return
 	}
 	ex.auditCtr++
-	if ex.auditCtr%n != 0 {
+	// the first decisions of every worker are always confirmed by the solver (small checks are audited in full),
+	// afterwards every n-th
+	if ex.auditCtr > auditAlways && ex.auditCtr%n != 0 {
 		return
 	}
 	ex.res.audits++
@@ -699,7 +703,7 @@ func (ex *Exec) assertNow(pa *pendingAssert) {
 	if folded {
 		// the negated assertion rewrites to false under the equalities on the path
 		ex.auditCtr++
-		if ex.sh.cfg.Tier != "thorough" && (ex.sh.cfg.AuditEvery <= 0 || ex.auditCtr%ex.sh.cfg.AuditEvery != 0) {
+		if ex.sh.cfg.Tier != "thorough" && (ex.sh.cfg.AuditEvery <= 0 || (ex.auditCtr > auditAlways && ex.auditCtr%ex.sh.cfg.AuditEvery != 0)) {
 			ex.res.folded++
 			ex.assume(pa.t)
 			return
